@@ -209,10 +209,9 @@ Section Scripts.
   Proof.
     intros H. destruct o; cbn [exec_op] in H.
     - (* SAttack *)
-      destruct qualified; cbn [andb] in H; [discriminate|].
       match type of H with (if ?c then _ else _) = _ => destruct c end; [inversion H; subst; apply ext_refl, nb_nil|].
-      assert (E : (match in_attack s with Some _ => s | None => s end) = s) by (destruct (in_attack s); reflexivity).
-      rewrite E in H. eapply do_hits_nb; eassumption.
+      destruct (in_attack s) as [ka|]; [eapply do_hits_nb; eassumption|].
+      destruct qualified; [discriminate|]. eapply do_hits_nb; eassumption.
     - discriminate.
     - destruct (get_unit (units s) _); [eapply ext_set_hp; eassumption|inversion H; subst; apply ext_refl, nb_nil].
     - destruct (budget s <=? 0); inversion H; subst; [apply ext_refl, nb_nil|].
@@ -306,9 +305,23 @@ Section Scripts.
       destruct (in_attack s) as [[k a]|] eqn:EA.
       + apply bext_of_ext. eapply do_hits_nb; eassumption.
       + destruct qualified.
-        * eapply bext_trans; [|apply bext_of_ext; eapply do_hits_nb; eassumption].
-          exists [VAttackStart key self]. cbn. split; [reflexivity|]. split; [reflexivity|].
-          intros ph0 Hp. unfold stack_of. rewrite EA. cbn [in_attack set_attack emit arun].
+        * (* the attack opens: the AttackStart listener runs on the state that is already "in the
+             attack", then AttackStart is logged, then the hits *)
+          destruct (pop_slot (set_attack s (Some (key, self))) LAttackStart) as [sc s1] eqn:EP.
+          match type of H with match ?r with _ => _ end = _ => destruct r as [s2|] eqn:ER; [|discriminate] end.
+          assert (E2 : ext nb (set_attack s (Some (key, self))) s2).
+          { assert (E1 : ext nb (set_attack s (Some (key, self))) s1).
+            { replace s1 with (snd (pop_slot (set_attack s (Some (key, self))) LAttackStart)) by (rewrite EP; reflexivity).
+              apply ext_pop_slot. }
+            destruct sc as [i|].
+            - eapply ext_trans_nb; [exact E1|]. eapply GR. exact ER.
+            - inversion ER; subst. exact E1. }
+          eapply bext_trans; [|apply bext_of_ext; eapply do_hits_nb; eassumption].
+          destruct E2 as (seg & T2 & P2 & I2 & F2). cbn [trace set_attack in_attack] in T2, I2.
+          exists (seg ++ [VAttackStart key self]). cbn [trace emit].
+          split; [rewrite T2, app_assoc; reflexivity|]. split; [exact F2|].
+          intros ph0 Hp. unfold stack_of. rewrite EA. cbn [in_attack emit]. rewrite I2.
+          rewrite arun_app, (P2 (mkA ph0 [b]) Hp). cbn [arun].
           unfold astep. cbn [ph]. rewrite Hp. cbn [stk]. destruct b; try discriminate; reflexivity.
         * apply bext_of_ext. eapply do_hits_nb; eassumption.
     - (* SEndAttack *)
@@ -993,7 +1006,7 @@ Definition demo_cfg : config :=
     [[SInsertAbility 1 75 TSelfSel [] 2%nat; SAttack 3 [TPrimary; TPrimary] true 30];
      [SAttack 4 [TId 1] true 10];
      [SAttack 5 [TId 2] true 100; SSample]]
-    [(1, [mkDec 0 100; mkDec 1 101])] [] [] [] [] [] [] [] [] 5 4.
+    [(1, [mkDec 0 100; mkDec 1 101])] [] [] [] [] [] [] [] [] [] 5 4.
 
 Example demo_cfg_runs :
   match start demo_cfg 200 with
